@@ -1,0 +1,71 @@
+//go:build verif
+
+// Contracts for package control, read by /verif/govc (comment-only file).
+
+package control
+
+//@ func ttlFromDeadline
+//@   requires 0 <= now.UnixNano() && 0 <= deadline.UnixNano()
+//@   requires deadline.UnixNano() - now.UnixNano() < 4294967296 * 1000000000
+//@   ensures result == 0 <==> deadline.UnixNano() <= now.UnixNano()
+//@   ensures result >= 1 ==> result * 1000000000 <= max(deadline.UnixNano() - now.UnixNano(), 1000000000)
+//@   ensures result >= 2 ==> (result + 1) * 1000000000 > deadline.UnixNano() - now.UnixNano()
+
+// ---------------------------------------------------------------------------------------------
+// C01: first-match semantics of the flat match-set array.
+//
+//   ent(j)      entry j of the compiled array
+//   isOr(j)     entry j is chained to the next one by OR (same condition continues)
+//   isTail(j)   entry j is the last entry of a rule
+//   ss(i)/rs(i) start of the condition / rule that position i belongs to
+//   hit(j)      the documented meaning of the single value stored in entry j
+//   condHolds(e)  for the last entry e of a condition: some value of the condition hits, xor the '!'
+//   ruleHolds(t)  for the last entry t of a rule: all its '&&'-joined conditions hold
+
+//@ func (*RoutingMatcher).Match
+//@   let N() = len(m.compiledMatches)
+//@   let outb(j int) = m.compiledMatches[j].outbound
+//@   let mt(j int) = m.compiledMatches[j].matchType
+//@   let isOr(j int) = outb(j) == 254
+//@   let isTail(j int) = (outb(j) & 254) != 254
+//@   let isLpm(j int) = mt(j) == consts.MatchType_IpSet || mt(j) == consts.MatchType_SourceIpSet || mt(j) == consts.MatchType_Mac
+//@   let bm() = m.domainMatcher.MatchDomainBitmap(domain)
+//@   let bin(a [16]uint8) = trie.Prefix2bin128(netip.PrefixFrom(netip.AddrFrom16(a), 128))
+//@   let lpmHit(j int, a [16]uint8) = m.lpmMatcher[m.compiledMatches[j].lpmIndex].HasPrefix(bin(a))
+//@   requires m.domainMatcher != nil
+//@   requires forall j int :: 0 <= j && j < N() ==> mt(j) <= consts.MatchType_Fallback
+//@   requires forall j int :: 0 <= j && j < N() && isLpm(j) ==> m.compiledMatches[j].lpmIndex < len(m.lpmMatcher)
+//@   ghostfn ss(i int) int
+//@   ghostfn rs(i int) int
+//@   ghostfn hit(j int) bool
+//@   ghostfn condHolds(e int) bool
+//@   ghostfn ruleHolds(t int) bool
+//@   assume ss(0) == 0 && rs(0) == 0
+//@   assume forall i int {outb(i)} :: 0 <= i && i < N() ==> ss(i+1) == (isOr(i) ? ss(i) : i+1)
+//@   assume forall i int {outb(i)} :: 0 <= i && i < N() ==> rs(i+1) == (isTail(i) ? i+1 : rs(i))
+//@   assume forall j int {hit(j)} {mt(j)} :: 0 <= j && j < N() ==> (hit(j) <==> ( \
+//@        (mt(j) == consts.MatchType_IpSet && lpmHit(j, destAddr)) \
+//@     || (mt(j) == consts.MatchType_SourceIpSet && lpmHit(j, sourceAddr)) \
+//@     || (mt(j) == consts.MatchType_Mac && lpmHit(j, mac)) \
+//@     || (mt(j) == consts.MatchType_DomainSet && domain != "" && bm() != nil && j/32 < len(bm()) && ((bm()[j/32] >> (j%32)) & 1) > 0) \
+//@     || (mt(j) == consts.MatchType_Port && m.compiledMatches[j].portStart <= destPort && destPort <= m.compiledMatches[j].portEnd) \
+//@     || (mt(j) == consts.MatchType_SourcePort && m.compiledMatches[j].portStart <= sourcePort && sourcePort <= m.compiledMatches[j].portEnd) \
+//@     || (mt(j) == consts.MatchType_IpVersion && (ipVersion & m.compiledMatches[j].mask) > 0) \
+//@     || (mt(j) == consts.MatchType_L4Proto && (l4proto & m.compiledMatches[j].mask) > 0) \
+//@     || (mt(j) == consts.MatchType_ProcessName && processName[0] != 0 && m.compiledMatches[j].pname == processName) \
+//@     || (mt(j) == consts.MatchType_Dscp && dscp == m.compiledMatches[j].dscp) \
+//@     || mt(j) == consts.MatchType_Fallback))
+//@   assume forall e int {condHolds(e)} :: 0 <= e && e < N() ==> (condHolds(e) <==> ((exists j int {hit(j)} :: ss(e) <= j && j <= e && hit(j)) != m.compiledMatches[e].not))
+//@   assume forall t int {ruleHolds(t)} :: 0 <= t && t < N() ==> (ruleHolds(t) <==> (forall e int {condHolds(e)} {outb(e)} :: rs(t) <= e && e <= t && !isOr(e) ==> condHolds(e)))
+//@   ensures err == nil ==> exists t int {ruleHolds(t)} {outb(t)} :: 0 <= t && t < N() && isTail(t) && outb(t) != consts.OutboundMustRules && ruleHolds(t) \
+//@        && (forall u int {ruleHolds(u)} :: 0 <= u && u < t && isTail(u) && outb(u) != consts.OutboundMustRules ==> !ruleHolds(u)) \
+//@        && outboundIndex == outb(t) && mark == m.compiledMatches[t].mark \
+//@        && (must <==> (m.compiledMatches[t].must || (exists u int {ruleHolds(u)} :: 0 <= u && u < t && isTail(u) && outb(u) == consts.OutboundMustRules && ruleHolds(u))))
+//@   ensures err != nil ==> N() == 0 || (forall t int {ruleHolds(t)} :: 0 <= t && t < N() && isTail(t) && outb(t) != consts.OutboundMustRules ==> !ruleHolds(t))
+//@   loop 1
+//@     invariant 0 <= rs($idx) && rs($idx) <= ss($idx) && ss($idx) <= $idx && $idx <= N()
+//@     invariant badRule ==> !goodSubrule
+//@     invariant !badRule ==> (goodSubrule <==> (exists j int {hit(j)} :: ss($idx) <= j && j < $idx && hit(j)))
+//@     invariant badRule <==> (exists e int {condHolds(e)} {outb(e)} :: rs($idx) <= e && e < $idx && !isOr(e) && !condHolds(e))
+//@     invariant must <==> (exists u int {ruleHolds(u)} {outb(u)} :: 0 <= u && u < $idx && isTail(u) && outb(u) == consts.OutboundMustRules && ruleHolds(u))
+//@     invariant forall u int {ruleHolds(u)} :: 0 <= u && u < $idx && isTail(u) && outb(u) != consts.OutboundMustRules ==> !ruleHolds(u)
